@@ -573,13 +573,12 @@ func allFaults(doc []byte, subs func(b byte) []byte, splices []Fault) []Fault {
 
 func subsQuick(b byte) []byte { return []byte{b ^ 0x01, b ^ 0x20} }
 
+// subsThorough: every other byte value.
 func subsThorough(b byte) []byte {
-	var out []byte
-	seen := map[byte]bool{b: true}
-	for _, c := range []byte{b ^ 0x01, b ^ 0x20, b ^ 0x80, b + 1, 0x00, '\n', '\r', ' ', '-', ':', 'A', '='} {
-		if !seen[c] {
-			seen[c] = true
-			out = append(out, c)
+	out := make([]byte, 0, 255)
+	for c := 0; c < 256; c++ {
+		if byte(c) != b {
+			out = append(out, byte(c))
 		}
 	}
 	return out
@@ -732,7 +731,7 @@ func Run(r *mc.Run) {
 			if !res.o.success() || !parasEqual(res.o.delivered, in.Want) {
 				r.HarnessError("document model disagrees with the reader on unsigned %s via %s: %s", c.d.Name, c.e, res.o)
 			}
-			if i%7 == 0 && st.WantSample() {
+			if i%17 == 0 && st.WantSample() {
 				st.Sample(map[string]interface{}{"doc": c.d.Name, "entry": c.e, "keyring": c.r.label(), "signer": res.o.signer, "outcome": res.class})
 			}
 			return true
@@ -777,7 +776,7 @@ func Run(r *mc.Run) {
 			vmu.Unlock()
 			r.HarnessError("vacuous: untampered %s signed by %s does not verify with keyring %s via %s: %s", c.sd.m.Name, c.sd.signer.name, c.r.label(), c.e, res.o)
 		}
-		if i%5 == 0 && st.WantSample() {
+		if i%13 == 0 && st.WantSample() {
 			st.Sample(map[string]interface{}{"doc": c.sd.m.Name, "signer": c.sd.signer.name, "keyring": c.r.label(), "entry": c.e, "outcome": cl, "reported_signer": res.o.signer})
 		}
 		return true
@@ -835,6 +834,9 @@ func Run(r *mc.Run) {
 						return false
 					}
 					f := faults[fi]
+					if strings.HasPrefix(f.Label, "foreign-signed-block-prepended-signed-by-K2") && len(j.rs.keys) > 1 {
+						continue // K2 is in this keyring: the prepended block would simply BE a validly signed document
+					}
 					in := In{Case: "signed", Doc: sd.m.Name, Entry: j.e, SignerFpr: K1.fpr, Signer: "K1", Orig: sd.bytes, Fault: &f, Want: sd.want}
 					j.rs.fill(&in)
 					res := check(name, in)
